@@ -59,6 +59,10 @@ def main(tier, seed):
                 p += [(0, 1, 2, leaf(13))] + print_char(rng.choice([68, 69])) + [(1, 1, 1, (1, leaf(13), None))]
             else:
                 p = rand_prog(rng, grammar=True)
+            if rng.random() < 0.15:
+                # begins by relying on stack 3 being the selected one: a value sent to stack 3 explicitly, then printed from the
+                # selected stack (seeded change C12-clear-keeps-selected-stack)
+                p = push_seq(rng.choice([66, 81, 56])) + [(1, 1, 3, None), (1, 1, 1, None)] + p
             if has_input_cmd(p): continue
             # keep programs whose payloads cannot be confused with session text
             cases.append(p)
@@ -84,6 +88,9 @@ def main(tier, seed):
                 # an earlier program that leaves labels, a return point, stack contents and a selected stack behind
                 q = rng.choice([idiom_print, idiom_forward_jump, idiom_stacks, idiom_multi, idiom_fraction])(rng)
                 if rng.random() < 0.6: q = q + idiom_loop(rng, rng.choice([3, 4, 5]))
+                if rng.random() < 0.5:
+                    # ... and ends with another stack selected (an ordinary one, or an output stack: the value is written)
+                    q = q + push_seq(72) + [(5, 1, rng.choice([1, 2, 4, 5, 9]), None)]
                 pre_clear = q
                 script.append(render_prog(q)); script.append("clear")
             for l in lines:
